@@ -36,4 +36,9 @@ CHECKS: dict[str, dict] = {
         "text": "Decides for every IR and every edit sequence built from the API: (a) in every list primitive each link store a.next=b is matched on the same paths by b.prev=a and a re-homed Use gets both link fields re-initialised; (b) only the primitives of xdsl/ir/core.py (plus Rewriter.replace_value_with_new_type) write link, parent, use-list and argument-list fields anywhere in the repository; (c) operand/successor replacement removes the old value's Use and adds the same Use to the new value and updates both tuples; (d) argument indices are shifted for exactly the suffix and retyped values keep owner and index; (e) slice rebuilds are right for each index class or reject it; (f) insertion writes links only after _attach_* and erase requires a detached node. Client code that bypasses the API, and sequences whose correctness depends on values rather than on the shape of the primitives, are not decided.",
         "note": 'Trusted: the list representation (_next/_prev/_first/_last fields) and the set of owner classes in core.py; one named exception (TestSpecialisedConstantFoldingPass, a deliberately inlined benchmark).',
     },
+    "C11": {
+        "technique": _T + 'MRO-aware call resolution + CFG must-pass-through (flag / notification / accumulation), handler-list field coverage, loop-control dataflow',
+        "text": "Decides for every pattern and IR: each PatternRewriter method (own or inherited from Builder) that reaches an IR-mutating primitive sets has_done_action on every such path (one accepted conditional idiom: set iff the list of re-routed users is non-empty); each mutation kind calls its listener hook in the order the walker needs; every handler list has a dispatcher, is forwarded and is wired into the walker together with the user's callbacks; the removal handler purges the erased op and all nested ops from the worklist; the worklist loop resets and accumulates the flag around every match and takes ops only from the worklist; every step of rewrite_region that can change the IR controls the re-walk loop; the applier stops after the first pattern that acted. Termination / fixpoint for arbitrary pattern sets and worklist order effects are not decided.",
+        "note": 'Trusted: the set of IR-mutating primitives (Rewriter.* static methods and the mutators of core.py); moves (inline_block/inline_region/move_region_contents) set the flag but have no listener hook by design and are recorded, not reported.',
+    },
 }
